@@ -5,7 +5,7 @@
 import AITB.Props.C03CheckSound
 import Mathlib.Algebra.Order.Archimedean.Basic
 
-namespace AITB.POMDP
+namespace AITB.POMDP3
 open AITB.MDP
 
 theorem maxTo_add_const (n : Nat) (f : Nat → Rat) (c : Rat) : maxTo n (fun i => f i + c) = maxTo n f + c := by
@@ -89,4 +89,4 @@ theorem lb_le_ub (m : POMDP) (hv : Valid m) (hS : 0 < m.S) (cL cU : Rat)
   obtain ⟨k, hk⟩ := gap_vanishes m hv cL cU b0 hb0 eps heps
   exact ⟨0, k, 0, k, hk⟩
 
-end AITB.POMDP
+end AITB.POMDP3
